@@ -61,7 +61,7 @@ NestExp(c, e) == CASE c.nest = "none" -> e [] c.nest = "loop" -> e \o e [] OTHER
 
 (* how the template that defines/imports and calls the macros is reached: as the entry, through include, embed, or as the parent
    of an entry template that only extends it *)
-Hosts == {"entry", "include", "embed", "parent"}
+Hosts == {"entry", "include", "embed", "parent", "childblock"}      \* childblock: the call sits in a block of a child that overrides the defining template's block
 Configs ==
   { [form |-> f, k |-> k, na |-> na, use |-> u, nest |-> n, special |-> "none", host |-> "entry"]
       : f \in Forms, k \in 0..4, na \in 0..6, u \in Uses, n \in Nests }
@@ -85,10 +85,16 @@ Program(c) ==
              ELSE UseOf(c, CallM(c.form, "m2", <<NameE("p2"), NameE("p1")>>)))
          \o <<Text("$")>>
     [] OTHER -> Prelude(c.form) \o <<Text("^")>> \o NestOf(c, UseOf(c, CallM(c.form, MName(c.k), Args(c.na)))) \o <<Text("$")>>
-Templates(c) == ("t" :> Program(c)) @@ ("lib" :> Defs("lib"))
+CallStmts(c) == IF c.special = "outer" THEN UseOf(c, CallM(c.form, "outer", Args(c.na)))
+                ELSE NestOf(c, UseOf(c, CallM(c.form, MName(c.k), Args(c.na))))
+Templates(c) == ("t" :> IF c.host = "childblock"
+                        THEN Prelude(c.form) \o <<Text("^"), BlockS("body", <<Text("base")>>), Text("$")>>
+                        ELSE Program(c))
+                @@ ("lib" :> Defs("lib"))
                 @@ (IF c.host = "entry" THEN <<>>
                     ELSE ("top" :> CASE c.host = "include" -> <<IncludeS(StrE("t"), NoE, FALSE)>>
                                      [] c.host = "embed" -> <<EmbedS(StrE("t"), NoE, FALSE, <<>>)>>
+                                     [] c.host = "childblock" -> <<ExtendsS(StrE("t")), BlockS("body", CallStmts(c))>>
                                      [] OTHER -> <<ExtendsS(StrE("t"))>>))
 Entry(c) == IF c.host = "entry" THEN "t" ELSE "top"
 Expected(c) ==
